@@ -61,6 +61,27 @@ func c18Request(kind, field string, size int) vlib.Req {
 		default:
 			h["Access-Control-Request-Method"] = []string{"P" + pad(size-1)}
 		}
+	case "acrm-lines":
+		if unit == "" {
+			unit = "PUT"
+		}
+		lines := make([]string, size)
+		for i := range lines {
+			lines[i] = unit
+		}
+		h["Access-Control-Request-Method"] = lines
+	case "origin-lines":
+		lines := make([]string, size)
+		for i := range lines {
+			lines[i] = "https://a.example"
+		}
+		h["Origin"] = lines
+	case "acrpn-lines":
+		lines := make([]string, size)
+		for i := range lines {
+			lines[i] = "true"
+		}
+		h["Access-Control-Request-Private-Network"] = lines
 	case "acrh-element-length":
 		if unit == "upper" {
 			h["Access-Control-Request-Headers"] = []string{"x-a,X-" + strings.Repeat("A", max(size, 0))}
@@ -191,6 +212,7 @@ func checkC18(c *vlib.Ctx) (string, string) {
 		{"acrh-lines:x-a;q=1", countLadder}, {"acrh-lines:x@y, (z)", countLadder}, {"acrh-lines:\x00", countLadder},
 		{"acrh-elements:x-a|x-b", countLadder}, {"acrh-elements:x-a|X-B|x-zz", countLadder}, {"acrh-elements:Authorization", countLadder},
 		{"acrh-empty-elements", countLadder},
+		{"acrm-lines", countLadder}, {"acrm-lines:put", countLadder}, {"acrm-lines:Put", countLadder}, {"acrm-lines:query", countLadder}, {"origin-lines", countLadder}, {"acrpn-lines", countLadder},
 		{"acrh-lines", countLadder}, {"acrh-lines:X-A", countLadder}, {"acrh-lines:x-zz", countLadder}, {"acrh-lines:empty", countLadder}, {"acrh-lines:x-a,x-b", countLadder},
 	}
 	maxSeen := 0.0
@@ -205,7 +227,7 @@ func checkC18(c *vlib.Ctx) (string, string) {
 				}
 				for _, kind := range []string{"preflight", "actual", "noncors"} {
 					for _, f := range fields {
-						if kind != "preflight" && !strings.HasPrefix(f.name, "origin-length") && f.name != "acrh-lines" {
+						if kind != "preflight" && !strings.HasPrefix(f.name, "origin-l") && f.name != "acrh-lines" {
 							continue // ACRM/ACRH are only looked at on preflights; keep two fields as a control
 						}
 						baseOf := map[string]int{} // fingerprint -> smallest size
